@@ -10459,7 +10459,7 @@ func (l *Lowerer) resolveParameterizedType(t *parser.NamedType) (ir.TypeHandle, 
 	// (compact::compact with KeepUnused::Yes at the end of lower()) removes
 	// anonymous scalars only embedded in Vector/Matrix. We replicate this by
 	// registering the scalar here, and running compactTypes() after lowering.
-	if len(t.Name) == 4 && t.Name[:3] == "vec" {
+	if isVecTypeName(t.Name) {
 		size := t.Name[3] - '0'
 		scalarType, err := l.resolveType(t.TypeParams[0])
 		if err != nil {
@@ -10481,7 +10481,7 @@ func (l *Lowerer) resolveParameterizedType(t *parser.NamedType) (ir.TypeHandle, 
 	}
 
 	// Matrix types: mat2x2<f32>, mat4x4<f32>
-	if len(t.Name) >= 3 && t.Name[:3] == "mat" {
+	if isMatTypeName(t.Name) {
 		// Simple parsing: mat4x4 -> 4 columns, 4 rows
 		cols := t.Name[3] - '0'
 		rows := t.Name[5] - '0'
